@@ -1,6 +1,10 @@
 package main
 
 import (
+	"bytes"
+	"fmt"
+	"sort"
+
 	"github.com/elastos/Elastos.ELA/blockchain"
 	"github.com/elastos/Elastos.ELA/common"
 	"verif/harness/internal/stack"
@@ -10,6 +14,81 @@ func ledgerGetAmount(h common.Uint168) (common.Fixed64, error) {
 	return blockchain.DefaultLedger.GetAmount(h)
 }
 
-func cacheOptions() stack.Options { return stack.Options{} }
+// cache mode (C15): the reference cache is squeezed to two entries so that
+// eviction happens all the time.
+func cacheOptions() stack.Options {
+	blockchain.MaxReferenceSize = 2
+	return stack.Options{}
+}
 
-func (w *world) cacheCheck() string { return "" }
+// cacheCheck compares every cached lookup with the uncached one:
+//   - UTXOCache.GetTxReference (Reference + TxCache) vs ChainStore.GetTxReference
+//   - ChainStoreFFLDB.GetBlock (decoded-block cache, cold and warm) vs the stored bytes
+//   - the bounds of the reference cache
+func (w *world) cacheCheck() string {
+	n := w.n
+	for _, t := range txOrder {
+		tx := w.txs[t]
+		if t == "T4" {
+			continue // same input twice: both lookups return one entry per *Input pointer
+		}
+		cached, cerr := n.Chain.UTXOCache.GetTxReference(tx)
+		plain, perr := n.Store.GetTxReference(tx)
+		if (cerr != nil) != (perr != nil) {
+			return fmt.Sprintf("reference-cache GetTxReference(%s): cached err=%v, uncached err=%v", t, cerr, perr)
+		}
+		if cerr != nil {
+			continue
+		}
+		if len(cached) != len(plain) {
+			return fmt.Sprintf("reference-cache GetTxReference(%s): %d cached references, %d uncached", t, len(cached), len(plain))
+		}
+		for in, o := range plain {
+			c, ok := cached[in]
+			if !ok {
+				return fmt.Sprintf("reference-cache GetTxReference(%s): input missing from the cached answer", t)
+			}
+			var b1, b2 bytes.Buffer
+			o.Serialize(&b1, tx.Version())
+			c.Serialize(&b2, tx.Version())
+			if !bytes.Equal(b1.Bytes(), b2.Bytes()) {
+				return fmt.Sprintf("reference-cache GetTxReference(%s): cached output differs from the stored one", t)
+			}
+		}
+		if l := len(n.Chain.UTXOCache.Reference); l > blockchain.MaxReferenceSize {
+			return fmt.Sprintf("reference-bound Reference holds %d entries, bound %d", l, blockchain.MaxReferenceSize)
+		}
+		if l := n.Chain.UTXOCache.Inputs.Len(); l > blockchain.MaxReferenceSize {
+			return fmt.Sprintf("reference-bound Inputs list holds %d entries, bound %d", l, blockchain.MaxReferenceSize)
+		}
+		if l := len(n.Chain.UTXOCache.TxCache); l > blockchain.MaxReferenceSize+1 {
+			return fmt.Sprintf("reference-bound TxCache holds %d entries, bound %d", l, blockchain.MaxReferenceSize)
+		}
+	}
+	// decoded block cache: every block the store has, twice (cold / warm), against the raw bytes
+	var ids []int
+	for id := range w.blocks {
+		ids = append(ids, id)
+	}
+	sort.Ints(ids)
+	for _, id := range ids {
+		h := w.blocks[id].Hash()
+		old, oerr := n.Store.GetFFLDB().GetOldBlock(h)
+		for pass := 0; pass < 2; pass++ {
+			blk, err := n.Store.GetFFLDB().GetBlock(h)
+			if (err != nil) != (oerr != nil) {
+				return fmt.Sprintf("block-cache GetBlock(%d) pass %d: err=%v, uncached err=%v", id, pass, err, oerr)
+			}
+			if err != nil {
+				continue
+			}
+			var b1, b2 bytes.Buffer
+			blk.Block.Serialize(&b1)
+			old.Serialize(&b2)
+			if !bytes.Equal(b1.Bytes(), b2.Bytes()) {
+				return fmt.Sprintf("block-cache GetBlock(%d) pass %d differs from the stored block", id, pass)
+			}
+		}
+	}
+	return ""
+}
